@@ -571,5 +571,23 @@ mut("09-body-trimmed-of-padding", "C09", "body:Encrypted.Msg", ("network.go", "	
 mut("09-decoder-given-a-prefix", "C09", "decoded:the-message-body", ("mtproto.go", "		data, err = tl.DecodeUnknownObject(msg.GetMsg())\n	}\n	if err != nil {\n		return errors.Wrap(err, \"unmarshaling response\")", "		body := msg.GetMsg()\n		data, err = tl.DecodeUnknownObject(body[:len(body)&^3])\n	}\n	if err != nil {\n		return errors.Wrap(err, \"unmarshaling response\")"))
 mut("01-decode-reverses-input", "C01", "param-untouched", ("internal/encoding/tl/decoder.go", "func DecodeUnknownObject(data []byte, expectNextTypes ...reflect.Type) (Object, error) {\n", "func DecodeUnknownObject(data []byte, expectNextTypes ...reflect.Type) (Object, error) {\n	if len(data) >= WordLen && data[0] == 0 && data[1] == 0 && data[2] == 0 {\n		data[0], data[3] = data[3], data[0] // big-endian id from an old server build\n	}\n"))
 
+# --- tenth round ----------------------------------------------------------------------------------------
+AES = "internal/aes_ige/aes.go"
+mut("05-tempkeys-result-from-package-buffer", "C05", "result-owned", (AES, "func encryptMessageWithTempKeys(msg []byte, nonceSecond, nonceServer *big.Int) []byte {\n	key, iv := generateTempKeys(nonceSecond, nonceServer)\n\n	encodedWithHash := make([]byte, len(msg))\n", "var seedOut []byte\n\nfunc encryptMessageWithTempKeys(msg []byte, nonceSecond, nonceServer *big.Int) []byte {\n	key, iv := generateTempKeys(nonceSecond, nonceServer)\n\n	if cap(seedOut) < len(msg) {\n		seedOut = make([]byte, len(msg))\n	}\n	encodedWithHash := seedOut[:len(msg)]\n"))
+mut("06-server-nonce-echoed-reparsed", "C06", "echo:PQInnerData.ServerNonce", (H, "		ServerNonce: nonceServer,\n		NewNonce:    nonceSecond,", "		ServerNonce: &tl.Int128{Int: big.NewInt(0).SetBytes(nonceServer.Bytes())},\n		NewNonce:    nonceSecond,"))
+mut("07-public-key-parsed-once", "C07", "global-write", ("internal/math/math.go", "func DoRSAencrypt(block []byte, key *rsa.PublicKey) []byte {\n", "var seedLastKey *rsa.PublicKey\n\nfunc DoRSAencrypt(block []byte, key *rsa.PublicKey) []byte {\n	if seedLastKey == nil {\n		seedLastKey = key\n	}\n	key = seedLastKey\n"))
+mut("08-linger-one-second", "C08", "linger:", ("internal/transport/conn_tcp.go", "	return &tcpConn{\n", "	_ = conn.SetLinger(1)\n\n	return &tcpConn{\n"))
+mut("08N-linger-default-explicit", "C08", None, ("internal/transport/conn_tcp.go", "	return &tcpConn{\n", "	_ = conn.SetLinger(-1)\n\n	return &tcpConn{\n"))
+mut("11-lock-kept-on-early-return", "C11", "lock-released", ("mtproto.go", "		m.mutex.Lock()\n		badMsgID := int(message.BadMsgID)\n", "		m.mutex.Lock()\n		badMsgID := int(message.BadMsgID)\n		if badMsgID == 0 {\n			return nil\n		}\n"))
+mut("16-lock-kept-on-early-return", "C16", "lock-released", ("mtproto.go", "		m.mutex.Lock()\n		badMsgID := int(message.BadMsgID)\n", "		m.mutex.Lock()\n		badMsgID := int(message.BadMsgID)\n		if badMsgID == 0 {\n			return nil\n		}\n"))
+mut("16N-lock-released-by-defer-in-closure", "C16", None, ("mtproto.go", "		m.mutex.Lock()\n		badMsgID := int(message.BadMsgID)\n		if v, ok := m.responseChannels.Get(badMsgID); ok {\n			m.responseChannels.Delete(badMsgID)\n			m.expectedTypes.Delete(badMsgID)\n			v <- &errorSessionConfigsChanged{}\n		}\n		m.mutex.Unlock()\n", "		func() {\n			m.mutex.Lock()\n			defer m.mutex.Unlock()\n			badMsgID := int(message.BadMsgID)\n			if v, ok := m.responseChannels.Get(badMsgID); ok {\n				m.responseChannels.Delete(badMsgID)\n				m.expectedTypes.Delete(badMsgID)\n				v <- &errorSessionConfigsChanged{}\n			}\n		}()\n"))
+mut("14-enum-decided-by-first-constructor", "C14", "enum:", ("internal/cmd/tlgen/gen/schema.go", "	for _, obj := range in {\n		if len(obj.Parameters) > 0 {\n			return false\n		}\n	}\n\n	return true\n", "	for _, obj := range in {\n		if len(obj.Parameters) > 0 {\n			return false\n		}\n		break\n	}\n\n	return true\n"))
+mut("14N-enum-flag-variable", "C14", None, ("internal/cmd/tlgen/gen/schema.go", "	for _, obj := range in {\n		if len(obj.Parameters) > 0 {\n			return false\n		}\n	}\n\n	return true\n", "	isEnum := true\n	for _, obj := range in {\n		if len(obj.Parameters) > 0 {\n			isEnum = false\n		}\n	}\n\n	return isEnum\n"))
+mut("17-code-made-positive", "C17", "the-servers-code-itself", ("errors.go", "		Code:           int(r.ErrorCode),", "		Code:           int(r.ErrorCode & 0x7fffffff),"))
+mut("18-wrapper-ignores-error", "C18", "error-kept", ("telegram/srp.go", "	res, err := srp.GetInputCheckPassword(password, accountPassword.SRPB, mp)\n	if err != nil {\n		return nil, errors.Wrap(err, \"processing password\")\n	}\n", "	res, err := srp.GetInputCheckPassword(password, accountPassword.SRPB, mp)\n	if err != nil && res != nil {\n		return nil, errors.Wrap(err, \"processing password\")\n	}\n"))
+mut("12-store-error-swallowed", "C12", "error-kept", ("mtproto_utils.go", "	return m.tokensStorage.Store(&session.Session{\n		Key:      m.authKey,\n		Hash:     m.authKeyHash,\n		Salt:     m.serverSalt,\n		Hostname: m.addr,\n	})\n", "	if err := m.tokensStorage.Store(&session.Session{\n		Key:      m.authKey,\n		Hash:     m.authKeyHash,\n		Salt:     m.serverSalt,\n		Hostname: m.addr,\n	}); err != nil {\n		m.warnError(err)\n	}\n	return nil\n"))
+mut("19-new-nonce-mixed-with-clock", "C19", "source:RandomInt256@", (H, "	nonceSecond := tl.RandomInt256()\n", "	nonceSecond := tl.RandomInt256()\n	nonceSecond.Xor(nonceSecond.Int, big.NewInt(time.Now().UnixNano()))\n"), (H, "import (\n", "import (\n	\"time\"\n"))
+mut("01-wrapper-flag-bit-moved", "C01", "presence:api.initConnection", ("telegram/methods_special.go", "	Params         JsonValue         `tl:\"flag:1\"`", "	Params         JsonValue         `tl:\"flag:2\"`"))
+
 json.dump(M, open('/verif/selftest/mutations.json', 'w'), indent=1, ensure_ascii=False)
 print(len(M), "mutations")
